@@ -2722,10 +2722,16 @@ XPathProcessorImpl::LocationPathPattern()
     // '//' must be followed by a RelativePathPattern.
     bool    expectRelativePathPattern = false;
 
+    // An alternative that doesn't start with '/', or with a call to id()
+    // or key(), must have a RelativePathPattern as well.
+    bool    foundStart = false;
+
     if(lookahead(XalanUnicode::charLeftParenthesis, 1) == true &&
                 (tokenIs(s_functionIDString) == true ||
                  tokenIs(s_functionKeyString) == true))
     {
+        foundStart = true;
+
         IdKeyPattern();
 
         if(tokenIs(XalanUnicode::charSolidus) == true && lookahead(XalanUnicode::charSolidus, 1) == true)
@@ -2747,6 +2753,8 @@ XPathProcessorImpl::LocationPathPattern()
     }
     else if(tokenIs(XalanUnicode::charSolidus) == true)
     {
+        foundStart = true;
+
         const int   newOpPos = m_expression->opCodeMapLength();
 
         // Tell how long the step is without the predicate
@@ -2777,25 +2785,17 @@ XPathProcessorImpl::LocationPathPattern()
         nextToken();
     }
 
-    if(m_token.empty() == false)
+    if(m_token.empty() == false &&
+       tokenIs(XalanUnicode::charVerticalLine) == false)
     {
-        if (!tokenIs(XalanUnicode::charVerticalLine) == true)
-        {
-            RelativePathPattern();
-        }
-        else if (expectRelativePathPattern == true)
-        {
-            error(XalanMessages::ExpectedNodeTest);
-        }
-        else if (lookahead(XalanUnicode::charVerticalLine, -1) == true)
-        {
-            error(
-                XalanMessages::UnexpectedTokenFound_1Param,
-                m_token);
-        }
+        RelativePathPattern();
     }
-    else if (expectRelativePathPattern == true)
+    else if (expectRelativePathPattern == true ||
+             foundStart == false)
     {
+        // There's nothing where a step has to be: after '//',
+        // before the first '|', after the last one, or between
+        // two of them...
         error(XalanMessages::ExpectedNodeTest);
     }
 
